@@ -39,12 +39,13 @@ Definition swap_und (R : mat Z) (a b c d : nat) : mat Z :=
   let R7 := upd R6 b c (R6 d c) in
   upd R7 d c 0.
 
-(* edge lists: np.where(R), np.where(np.tril(R)), np.where(np.triu(A, 1)) — row-major *)
+(* edge lists: np.where(R), np.where(np.tril(R, -1)) (strict lower triangle: a self-connection is not a rewirable
+   edge), np.where(np.triu(A, 1)) — row-major *)
 Inductive elsrc := ELall | ELtril | ELtriu1.
 Definition el_keep (src : elsrc) (c : nat * nat) : bool :=
   match src with
   | ELall => true
-  | ELtril => Nat.leb (snd c) (fst c)
+  | ELtril => Nat.ltb (snd c) (fst c)
   | ELtriu1 => Nat.ltb (fst c) (snd c)
   end.
 Definition edge_list (src : elsrc) (n : nat) (R : mat Z) : list (nat * nat) :=
